@@ -5,6 +5,7 @@
 package main
 
 import (
+	"bytes"
 	"encoding/binary"
 	"encoding/json"
 	"errors"
@@ -18,7 +19,10 @@ import (
 	"path/filepath"
 	"sort"
 	"strings"
+	"sync"
+	"sync/atomic"
 	"syscall"
+	"time"
 
 	"golang.zx2c4.com/wireguard/tun"
 )
@@ -44,6 +48,8 @@ type Case struct {
 	Room   int    `json:"room"` // len(bufs[i]) - offset
 	// GSeed selects the stale bytes the output buffers hold before the call (0 = derive from Raw)
 	GSeed uint64 `json:"gseed,omitempty"`
+	// Conc names the concurrent pass the observation was made in ("" = a call on its own)
+	Conc string `json:"conc,omitempty"`
 	// observed
 	Panic    bool     `json:"panic"`
 	PanicMsg string   `json:"panic_msg,omitempty"`
@@ -163,10 +169,16 @@ func runImpl(c *Case) {
 			c.ErrMsg = err.Error()
 		}
 	}()
+	collect(c, bufs, stale, sizes)
+}
+
+// collect records the written buffers and whether anything outside them changed.
+func collect(c *Case, bufs, stale [][]byte, sizes []int) {
 	if c.Panic {
 		return
 	}
 	c.Segs = [][]byte{}
+	c.Touched = false
 	for i := range bufs {
 		used := 0
 		if sizes[i] >= 0 {
@@ -777,6 +789,250 @@ func readThroughTun(raw []byte, bufs [][]byte, sizes []int, offset int) (int, er
 	return rt.dev.Read(bufs, sizes, offset)
 }
 
+// ---------------------------------------------------------------------------
+// Concurrent passes over the real NativeTun.Read: the property is about what every Read
+// returns, also when several goroutines read one device (readOpMu guards readBuff) and while
+// NativeTun.Write runs GRO with checksum validation on another goroutine (as
+// RoutineReadFromTUN and RoutineSequentialReceiver do).  Distinct tagged super-packets are
+// queued; every Read result is attributed to the super-packet its first segment claims to
+// come from (ports) and judged in Coq against that super-packet by the same model and
+// specification as a single call; a super-packet nobody returned is reported with an empty
+// result, one returned twice is reported twice.
+
+const concOffset, concBufs = 16, 40
+
+type concResult struct {
+	c           Case
+	bufs, stale [][]byte
+	sizes       []int
+}
+
+func concPackets(r *rand.Rand, n int) [][]byte {
+	var pk [][]byte
+	for k := 0; k < n; k++ {
+		s := superSpec{v6: k%2 == 1, tcp: k%4 < 2, ihl: 20, thl: 8, seq: r.Uint32(), flags: 0x18, id: uint16(r.Intn(65536)), vflags: needsCsum}
+		if s.tcp {
+			s.thl = 20
+		}
+		s.gso = 100 + r.Intn(200)
+		s.paylen = s.gso*(10+r.Intn(20)) + r.Intn(s.gso)
+		s.hdrLenHint = uint16(s.hl())
+		raw := buildSuper(r, s)
+		binary.BigEndian.PutUint16(raw[10+s.cs():], uint16(0x4000+k)) // the tag: source and destination port
+		binary.BigEndian.PutUint16(raw[10+s.cs()+2:], uint16(0x5000+k))
+		pk = append(pk, raw)
+	}
+	return pk
+}
+
+// tagOf finds the super-packet a result claims to come from (-1: none).
+func tagOf(seg []byte, n int) int {
+	if len(seg) < 1 {
+		return -1
+	}
+	cs := 20
+	if seg[0]>>4 == 6 {
+		cs = 40
+	}
+	if len(seg) < cs+4 {
+		return -1
+	}
+	k := int(binary.BigEndian.Uint16(seg[cs:])) - 0x4000
+	if k < 0 || k >= n || int(binary.BigEndian.Uint16(seg[cs+2:])) != 0x5000+k {
+		return -1
+	}
+	return k
+}
+
+// writerBatch: the segments of one flow as NativeTun.Write gets them (valid checksums, consecutive)
+func writerBatch(r *rand.Rand, tcp, v6 bool) [][]byte {
+	s := superSpec{v6: v6, tcp: tcp, ihl: 20, thl: 8, gso: 64, paylen: 64 * 48, seq: r.Uint32(), flags: 0x10, id: 1, vflags: needsCsum}
+	if tcp {
+		s.thl = 20
+	}
+	s.hdrLenHint = uint16(s.hl())
+	c := Case{Raw: buildSuper(r, s), NBufs: 64, Offset: concOffset, Room: 65535}
+	runImpl(&c)
+	return c.Segs
+}
+
+func concurrentPass(r *rand.Rand, gen string, withWriters bool, npk, maxRounds int, budget time.Duration) []Case {
+	packets := concPackets(r, npk)
+	room := 0
+	for _, p := range packets {
+		if len(p) > room {
+			room = len(p)
+		}
+	}
+	room += 64
+	// what each call returns on its own (used only to pick the round that is written out)
+	want := make([]Case, npk)
+	for k, p := range packets {
+		want[k] = Case{Raw: p, NBufs: concBufs, Offset: concOffset, Room: room}
+		runImpl(&want[k])
+	}
+	fds, err := syscall.Socketpair(syscall.AF_UNIX, syscall.SOCK_DGRAM, 0)
+	if err != nil {
+		panic(fmt.Sprintf("socketpair: %v", err))
+	}
+	rfile := os.NewFile(uintptr(fds[0]), "faketun-read")
+	dev := tun.VerifNewReadTun(rfile)
+	defer rfile.Close()
+	defer syscall.Close(fds[1])
+
+	var stop atomic.Bool
+	var wg sync.WaitGroup
+	if withWriters {
+		wfds, err := syscall.Socketpair(syscall.AF_UNIX, syscall.SOCK_DGRAM, 0)
+		if err != nil {
+			panic(fmt.Sprintf("socketpair: %v", err))
+		}
+		wfile := os.NewFile(uintptr(wfds[0]), "faketun-write")
+		wdev := tun.VerifNewWriteTun(wfile, true)
+		go func() { // the kernel side of the write fd: drain
+			b := make([]byte, 70000)
+			for {
+				if _, err := syscall.Read(wfds[1], b); err != nil {
+					return
+				}
+			}
+		}()
+		for w := 0; w < 2; w++ {
+			batch := writerBatch(r, w == 0, w == 1)
+			wg.Add(1)
+			go func() {
+				defer wg.Done()
+				backing := make([][]byte, len(batch))
+				for i := range backing {
+					backing[i] = make([]byte, concOffset+65535)
+				}
+				bufs := make([][]byte, len(batch))
+				for !stop.Load() {
+					for i, s := range batch {
+						bufs[i] = backing[i][:concOffset+len(s)]
+						copy(bufs[i][concOffset:], s)
+					}
+					wdev.Write(bufs, concOffset)
+				}
+			}()
+		}
+		defer func() {
+			stop.Store(true)
+			wg.Wait()
+			wfile.Close()
+			syscall.Close(wfds[1])
+		}()
+	}
+
+	deadline := time.Now().Add(budget)
+	var chosen []Case
+	for round := 0; round < maxRounds && (round == 0 || time.Now().Before(deadline)); round++ {
+		results := make([]concResult, npk)
+		var next atomic.Int32
+		var rg sync.WaitGroup
+		go func() {
+			for _, p := range packets {
+				if n, err := syscall.Write(fds[1], p); err != nil || n != len(p) {
+					panic(fmt.Sprintf("write to the stand-in tun fd: n=%d err=%v", n, err))
+				}
+			}
+		}()
+		for rd := 0; rd < 3; rd++ {
+			rg.Add(1)
+			go func() {
+				defer rg.Done()
+				for {
+					t := int(next.Add(1)) - 1
+					if t >= npk {
+						return
+					}
+					res := &results[t]
+					res.c = Case{Type: "rd", Conc: gen, Gen: gen, NBufs: concBufs, Offset: concOffset, Room: room, GSeed: uint64(1 + 1000*round + t)}
+					res.bufs = make([][]byte, concBufs)
+					res.stale = make([][]byte, concBufs)
+					for i := range res.bufs {
+						res.bufs[i] = make([]byte, concOffset+room)
+						staleFill(&res.c, i, res.bufs[i])
+						res.stale[i] = append([]byte(nil), res.bufs[i]...)
+					}
+					res.sizes = make([]int, concBufs)
+					for i := range res.sizes {
+						res.sizes[i] = -1
+					}
+					func() {
+						defer func() {
+							if x := recover(); x != nil {
+								res.c.Panic, res.c.PanicMsg = true, fmt.Sprint(x)
+							}
+						}()
+						n, err := dev.Read(res.bufs, res.sizes, concOffset)
+						res.c.N, res.c.Err = n, classify(err)
+						if err != nil {
+							res.c.ErrMsg = err.Error()
+						}
+					}()
+				}
+			}()
+		}
+		rg.Wait()
+		// attribute every result to a super-packet
+		claimed := make([][]int, npk)
+		var unmatched []int
+		for t := range results {
+			res := &results[t]
+			collect(&res.c, res.bufs, res.stale, res.sizes)
+			k := -1
+			if len(res.c.Segs) > 0 {
+				k = tagOf(res.c.Segs[0], npk)
+			}
+			if k < 0 {
+				unmatched = append(unmatched, t)
+			} else {
+				claimed[k] = append(claimed[k], t)
+			}
+		}
+		var out []Case
+		odd := false
+		for k := range packets {
+			if len(claimed[k]) == 0 && len(unmatched) > 0 { // a result that names no super-packet stands for one nobody returned
+				claimed[k] = append(claimed[k], unmatched[0])
+				unmatched = unmatched[1:]
+			}
+			if len(claimed[k]) != 1 {
+				odd = true
+			}
+			if len(claimed[k]) == 0 { // lost: nothing was returned for it
+				c := Case{Type: "rd", Conc: gen, Gen: gen + "-lost", Raw: packets[k], NBufs: concBufs, Offset: concOffset, Room: room, GSeed: 1, Segs: [][]byte{}}
+				c.Info = map[string]any{"kind": "concurrent", "nseg": want[k].N, "returned": 0}
+				out = append(out, c)
+			}
+			for j, t := range claimed[k] {
+				c := results[t].c
+				c.Raw = packets[k]
+				c.Info = map[string]any{"kind": "concurrent", "nseg": want[k].N, "returned": len(claimed[k]), "round": round}
+				if j > 0 {
+					c.Gen = gen + "-duplicate"
+				}
+				if c.Panic != want[k].Panic || c.N != want[k].N || c.Err != want[k].Err || c.Touched || len(c.Segs) != len(want[k].Segs) {
+					odd = true
+				} else {
+					for i := range c.Segs {
+						if !bytes.Equal(c.Segs[i], want[k].Segs[i]) {
+							odd = true
+						}
+					}
+				}
+				out = append(out, c)
+			}
+		}
+		chosen = out
+		if odd {
+			break
+		}
+	}
+	return chosen
+}
+
 // maximum-size and ordinary well-formed reads through NativeTun.Read
 func readCases(r *rand.Rand, thorough bool) []Case {
 	var res []Case
@@ -1131,6 +1387,9 @@ func main() {
 			if cases[i].NBufs < 1 {
 				cases[i].NBufs = 1
 			}
+			if cases[i].Conc != "" {
+				continue // recorded in a concurrent pass: judged as recorded
+			}
 			runImpl(&cases[i])
 		}
 	} else {
@@ -1163,6 +1422,12 @@ func main() {
 		cases = append(cases, scenarioCarry(r)...)
 		cases = append(cases, checksumCases(r, *thorough)...)
 		cases = append(cases, readCases(r, *thorough)...)
+		rounds, budget := 25, 1500*time.Millisecond
+		if *thorough {
+			rounds, budget = 400, 8*time.Second
+		}
+		cases = append(cases, concurrentPass(r, "read-concurrent", false, 36, rounds, budget)...)
+		cases = append(cases, concurrentPass(r, "read-write-concurrent", true, 36, rounds, budget)...)
 		if !*noF6 {
 			cases = append(cases, scenarioUDPZero(r)...)
 		}
